@@ -1616,7 +1616,11 @@ impl PeerConnection {
                         && parts[1] == "IP4"
                         && let Ok(ip) = parts[2].parse::<std::net::IpAddr>()
                     {
-                        remote_addr = Some(std::net::SocketAddr::new(ip, section.port));
+                        // SDES-SRTP runs one transport keyed from the first section (setup_sdes):
+                        // its address, not the last section's, is the remote of that transport.
+                        if remote_addr.is_none() {
+                            remote_addr = Some(std::net::SocketAddr::new(ip, section.port));
+                        }
                     }
                 }
             }
